@@ -7,7 +7,8 @@ labelled as such in the evidence:
     (2,2) [quick] / (3,3) [thorough] with fully symbolic composition counts, mass numbers, electron flags and
     abundances: every path is explored and the denotation of every emitted matrix entry / factor is proved equal
     to the spec  M_ij = sum_s [not e-] c_i(s) c_j(s) A_j ab_s / A_s / H ,  f_s = sum_j c_j(s) A_j r_j / A_s .
-  * the algebraic core of the property (L3) is proved by z3 for the same sizes from those spec functions:
+  * the algebraic core of the property (L3) is proved for the same sizes (and 3x3 in the thorough tier) from those spec functions
+    (case split on the guards + polynomial normalisation, pyvc/acnorm.py):
     if M r = ref then sum_s c_i(s) ab_s f_s == H * ref_i; with element closure (A_s = sum_j c_j(s) A_j) r = 1
     solves the system for the current ratios and then every factor is 1 (identity).
   * the template's decoding of the flat matrix index is an arithmetic VC on the Jinja AST (unbounded).
@@ -136,10 +137,10 @@ def entry(it):
 def algebra_items(tier):
     """bridge L3 for the bounded sizes, from the spec functions only (polynomial identities)"""
     items = []
-    # the restoration identity is a polynomial identity with divisions; z3 decides it for ne*ns <= 2 within seconds,
-    # larger sizes time out (nonlinear real arithmetic): they are attempted in the thorough tier only and the bound is
-    # reported as it is; the general-n statement is the stated bridge lemma L3
-    sizes = [(1, 1), (1, 2), (2, 1)] + ([(2, 2)] if tier == "thorough" else [])
+    # the restoration identity is a polynomial identity with divisions: decided per guard case by polynomial normalisation
+    # (z3's nonlinear arithmetic timed out beyond ne*ns = 2); sizes up to 2x2 (quick) / 3x3 (thorough); the general-n statement
+    # is the stated bridge lemma L3
+    sizes = [(1, 1), (1, 2), (2, 1), (2, 2)] + ([(2, 3), (3, 2), (3, 3)] if tier == "thorough" else [])
     for ne, ns in sizes:
         t0 = time.time()
         pre = [Hn > 0] + [Asp(s) > 0 for s in range(ns)] + [Ael(j) > 0 for j in range(ne)] + \
@@ -152,12 +153,40 @@ def algebra_items(tier):
         # case split on the guards (electron flag, zero counts): each case is a plain polynomial identity
         import itertools
         conds = [is_e(s) for s in range(ns)] + [cnt(s, j) == 0 for s in range(ns) for j in range(ne)]
-        st, be = "proved", "z3-cases"
+        st, be = "proved", "case split + polynomial normalisation (pyvc.acnorm), z3 for the divisor side conditions"
+        from pyvc import acnorm
+        nzcache = {}
+
+        def nonzero(t):
+            k = t.sexpr()
+            if k not in nzcache:
+                nzcache[k] = smt.check_valid(pre, t != 0, timeout_ms=5000, use_cvc5=False)[0] == "proved"
+            return nzcache[k]
+        # every guard of the spec functions is an electron flag or a zero test of a count: in each of the 2^k cases the guards are
+        # constants (a zero count is replaced by 0), the hypothesis M r = ref is used as the definition of ref, and what remains
+        # is a polynomial identity in ab, r, A, 1/A, 1/H and the counts
+        ncase = 0
         for bits in itertools.product([False, True], repeat=len(conds)):
-            case = [c if b else z3.Not(c) for c, b in zip(conds, bits)]
-            st1, be1, dt1, mdl = smt.check_valid(pre + system + case, claim, timeout_ms=20000, use_cvc5=False)
-            if st1 != "proved":
-                st, be = st1, be1
+            ncase += 1
+            sub = []
+            for c, b in zip(conds, bits):
+                sub.append((c, z3.BoolVal(b)))
+                if c.decl().kind() == z3.Z3_OP_EQ:
+                    sub.append((c.arg(0) != 0, z3.BoolVal(not b)))
+                    sub.append((z3.Not(c), z3.BoolVal(not b)))
+            zero = [(c.arg(0), z3.IntVal(0)) for c, b in zip(conds, bits) if b and c.decl().kind() == z3.Z3_OP_EQ]
+
+            def inst(t):
+                return z3.substitute(z3.substitute(t, *sub), *zero) if zero else z3.substitute(t, *sub)
+            for i in range(ne):
+                lhs = inst(tot_new[i])
+                rhs = inst(Hn * z3.Sum([spec_matrix(i, j, ns) * RP(j) for j in range(ne)]))
+                if not acnorm.poly_equal(lhs, rhs, nonzero):
+                    r1 = smt.check_valid(pre + system + [c if b else z3.Not(c) for c, b in zip(conds, bits)], tot_new[i] == Hn * ref[i], timeout_ms=20000, use_cvc5=False)
+                    if r1[0] != "proved":
+                        st, be = r1[0], r1[1]
+                        break
+            if st != "proved":
                 break
         items.append({"name": f"lemma/renorm/{ne}x{ns}/new-element-totals-are-H-times-reference", "status": st, "backend": be,
                       "seconds": time.time() - t0, "detail": "sum_s c_i(s) ab_s f_s == H ref_i given M r = ref"})
